@@ -60,6 +60,9 @@ struct upipe_ts_decaps {
 
     /** last continuity counter for this PID, or -1 */
     int8_t last_cc;
+    /** true if the continuity counter changed in a packet without payload,
+     * until the next payload is output */
+    bool discontinuity;
     /** last TS packet */
     struct uref *last_uref;
 
@@ -96,6 +99,7 @@ static struct upipe *upipe_ts_decaps_alloc(struct upipe_mgr *mgr,
     upipe_ts_decaps_init_urefcount(upipe);
     upipe_ts_decaps_init_output(upipe);
     upipe_ts_decaps->last_cc = -1;
+    upipe_ts_decaps->discontinuity = false;
     upipe_ts_decaps->lost = 0;
     upipe_ts_decaps->last_uref = NULL;
     upipe_throw_ready(upipe);
@@ -210,12 +214,18 @@ static void upipe_ts_decaps_input(struct upipe *upipe, struct uref *uref,
     upipe_ts_decaps->last_cc = cc;
 
     if (unlikely(!has_payload)) {
+        /* The continuity counter is not incremented in packets without
+         * payload: getting here means that it changed (or that this is the
+         * first packet), so packets were lost. Nothing is output now: tell
+         * it with the next payload. */
+        upipe_ts_decaps->discontinuity = true;
         uref_free(uref);
         return;
     }
 
-    if (unlikely(discontinuity))
+    if (unlikely(discontinuity || upipe_ts_decaps->discontinuity))
         uref_flow_set_discontinuity(uref);
+    upipe_ts_decaps->discontinuity = false;
     if (unlikely(random))
         uref_flow_set_random(uref);
     if (unlikely(unitstart))
